@@ -151,6 +151,21 @@ def run_case(data):
                 continue
             res, o = w.recv_data(ch.pick(sorted(cands)), True)
             o = None
+        elif op == 'headers' and ch.chance(20):
+            # header text that cannot be encoded: the call raises whatever the stream state; nothing may remain
+            # of it (not the stream it would have opened, not the id it would have promised)
+            # (only where the same call with encodable text would be permitted: a call that a state machine
+            # refuses first is known finding K03, not this)
+            as_push = not client and ch.bool()
+            if as_push:
+                if m.push_verdict(sid, w.next_local_id())[0] != M.PERMIT:
+                    continue
+                w.send_unencodable(sid, promised=w.next_local_id())
+            else:
+                if m.send_headers_verdict(sid, 'final', False)[0] != M.PERMIT:
+                    continue
+                w.send_unencodable(sid)
+            r.labels.add('unencodable-header-text')
         elif op == 'headers':
             kind = ch.weighted([(5, 'final'), (2, 'info'), (3, 'trailers')])
             es = ch.bool()
@@ -163,7 +178,11 @@ def run_case(data):
                     or (client and kind == 'info')):
                 r.excluded['content-based-refusal-with-validation-off'] += 1
                 continue
-            res, o = w.send_headers(sid, kind, es)
+            hdrs = None
+            if kind == 'info' and ch.bool():
+                # the same block as the application may write it: the library normalises name and value
+                hdrs = [ch.pick([(':status', ' 100'), (b':status', b'103 '), (' :Status', '100'), (b':STATUS ', b' 102 ')])]
+            res, o = w.send_headers(sid, kind, es, hdrs=hdrs)
         elif op == 'data':
             res, o = w.send_data(sid, ch.chance(64), n=ch.int(0, 20), pad=ch.pick([None, None, 0, 5]))
         elif op == 'end':
